@@ -43,7 +43,7 @@ def _case(draw):
         w2 = draw(st.sampled_from([1, 2, 0.5, -1, 3]))
         comps.append([kind, a, b, w1, w2, draw(st.integers(0, max(0, c - 1)))])
     npts = draw(st.integers(2, 4))
-    extra = [[draw(st.sampled_from(["comb", "twin"])), draw(st.integers(0, npts - 1)), draw(st.integers(0, npts - 1)),
+    extra = [[draw(st.sampled_from(["comb", "twin", "ltwin", "conv"])), draw(st.integers(0, npts - 1)), draw(st.integers(0, npts - 1)),
               draw(st.sampled_from([1, -1, 0.5, 2]))] for _ in range(draw(st.integers(0, 2)))]
     ops = [[draw(st.sampled_from(["oracle", "oracle", "gradient", "value", "call", "stat", "fixed", "prox"])),
             draw(st.integers(0, nf + ncomp - 1)), draw(st.integers(0, npts + len(extra) - 1))]
@@ -121,6 +121,11 @@ def check_case(case, ctx):
         for kind, i, j, w in case["extra"]:
             if kind == "comb":
                 X.append(X[i] + w * X[j])
+            elif kind == "ltwin":
+                X.append(0 * X[j] + X[i])         # the null weight sits in the left operand
+            elif kind == "conv":
+                lam = 1 if w > 0 else 0           # a convex combination at an end point: (1 - lam) x_j + lam x_i
+                X.append((1 - lam) * X[j] + lam * X[i])
             else:
                 X.append(X[i] + 0 * X[j])         # a distinct object with the same decomposition as X[i]
 
